@@ -133,6 +133,12 @@ def perturb(j, rng):
     paths = list(_paths(j))
     objs = [p for p in paths if isinstance(_get(j, p), tuple) and _get(j, p)[1]]
     arrs = [p for p in paths if isinstance(_get(j, p), list)]
+    vers = [p for p in objs if any(k == "version" for k, _ in _get(j, p)[1])]
+    if vers and rng.random() < 0.12:
+        # the text of a semver requirement, as a client would write it (spaces, bare versions, wildcards, nonsense)
+        p = rng.choice(vers)
+        kvs = [(k, S.random_version_text(rng) if k == "version" else x) for k, x in _get(j, p)[1]]
+        return _set(j, p, ("obj", kvs)), "version-text"
     kind = rng.choice(["shuffle", "shuffle", "drop", "drop", "unknown", "dup-key", "dup-key", "null", "null", "scalar", "scalar", "arr-drop", "arr-dup", "obj-to-array", "obj-to-array"])
     if kind in ("shuffle", "drop", "unknown", "dup-key") and objs:
         p = rng.choice(objs); kvs = list(_get(j, p)[1])
@@ -430,11 +436,10 @@ def run():
         edited_small = []
         for kind, v, j in metas[:ck.n(700, 3000)]:
             j2, how = perturb(j, ck.rng)
-            if any(isinstance(_get(j2, p), tuple) and any(k == "version" and isinstance(x, str) and x not in S.VERSION_REQS for k, x in _get(j2, p)[1])
+            if any(isinstance(_get(j2, p), tuple) and any(k == "version" and isinstance(x, str) and ("-" in x or "+" in x) for k, x in _get(j2, p)[1])
                    for p in _paths(j2)):
-                # semver::VersionReq is a trusted opaque codec: its model is `any string`, meant for texts that ARE a
-                # VersionReq's Display form; an edit that writes another text there is outside the model's domain
-                ck.stat("edited-documents", "out-of-model:VersionReq-text(trusted codec)"); continue
+                # Model/VersionReq.v does not model pre-release / build metadata after the patch number
+                ck.stat("edited-documents", "out-of-model:VersionReq pre-release/build"); continue
             root = env.roots[kind]
             why = ""
             try:
@@ -478,6 +483,41 @@ def run():
         ck.coverage["descriptor_coverage_total"] = cov_all
         if cov_all["hit"] < cov_all["universe"]:
             ck.coverage["descriptor_coverage_note"] = "not every variant/option state was exercised in this run (see missed)"
+
+    # ------------------------------------------------------------------ 3c. the semver::VersionReq codec (Model/VersionReq.v)
+    # from_str . Display on texts: real semver (through a minimal RQ document), the python twin, and the Coq definitions
+    vtexts = list(dict.fromkeys(S.VERSION_FIXED + S.VERSION_REQS + [S.random_version_text(ck.rng) for _ in range(ck.n(600, 4000))]))
+    vdocs = ['{"def":{"version":%s,"other":{}},"tables":[],"relation":{"kind":{"ExternRef":{"LocalTable":["t"]}},"columns":[]}}' % json.dumps(t) for t in vtexts]
+    vreal = {}
+    for t, a in zip(vtexts, harness("c15_reser", [{"kind": "rq", "json": d} for d in vdocs])):
+        ck.count("versionreq-codec", t)
+        real = json.loads(a["ok"])["def"]["version"] if "ok" in a else None
+        vreal[t] = real
+        m = S.vreq_normalise(t)
+        if m != real:
+            ck.violation("the VersionReq model and semver disagree on a requirement text",
+                         {"kind": "versionreq", "text": t, "got": {"model": m, "semver": real if real is not None else a}})
+        else:
+            ck.stat("versionreq-codec", "accept:same-display-form" if real is not None else "both-reject")
+    if pr["ok"]:
+        vs = [t for t in vtexts if len(t) <= 24]
+        ck.rng.shuffle(vs)
+        vs = [t for t in vs if vreal[t] is not None][:ck.n(40, 300)] + [t for t in vs if vreal[t] is None][:ck.n(40, 300)]
+        try:
+            vals = coq_eval("From Coq Require Import List NArith.\nFrom PV Require Import Lib.ListX Model.Json Model.VersionReq.\nImport ListNotations.\n",
+                            ["(match vreq_normalise %s with Some s => (true, s) | None => (false, []) end)" % S.coq_codes(t) for t in vs])
+        except RuntimeError as ex:
+            vals = None
+            ck.violation("Coq evaluation of the VersionReq model failed", {"kind": "coq-eval", "error": str(ex)[-800:]})
+        for t, r in zip(vs, vals or []):
+            ck.count("versionreq-coq", t)
+            got = None
+            if r is not None and r[0]:
+                got = "".join(chr(c) for c in (r[1] if isinstance(r[1], list) else []))
+            if r is None or got != vreal[t]:
+                ck.violation("the Coq VersionReq model and semver disagree on a requirement text", {"kind": "versionreq", "text": t, "got": {"coq": repr(r)[:200], "semver": vreal[t]}})
+            else:
+                ck.stat("versionreq-coq", "agree")
 
     # ------------------------------------------------------------------ 4. the Coq definitions themselves on a sample
     if env is not None and small and pr["ok"]:
